@@ -722,6 +722,40 @@ fn explore(cfg: &Cfg) -> (Stats, u64, u64) {
             work.push(("peek_slice".into(), with_prelude(pl, &Op::Seq(Box::new(Op::AndThen(Box::new(l.clone()), Box::new(Op::Eoi)))))));
         }
     }
+    // stack transactions: nested checkpoints cleared inside a checkpoint that is later restored
+    {
+        let at = |a: Op, b: Op| Op::AndThen(Box::new(a), Box::new(b));
+        let seq = |a: Op| Op::Seq(Box::new(a));
+        let pops: Vec<Op> = vec![at(Op::Drop, Op::Drop), at(Op::Pop, Op::Pop), at(Op::Drop, Op::Pop), at(Op::Drop, at(Op::Peek, Op::Drop)), Op::Drop, Op::MatchPop];
+        let mut nested: Vec<Op> = vec![];
+        for p in &pops {
+            nested.push(seq(p.clone()));
+            nested.push(Op::Opt(Box::new(seq(p.clone()))));
+            nested.push(Op::Restore(Box::new(p.clone())));
+            nested.push(Op::Rep(Box::new(seq(p.clone()))));
+        }
+        let mut mids: Vec<Op> = vec![];
+        for y in ["a", "b"] {
+            for n in &nested {
+                let body = at(Op::PushLit(y), n.clone());
+                mids.push(seq(body.clone()));
+                mids.push(Op::Restore(Box::new(body.clone())));
+                mids.push(Op::Opt(Box::new(seq(body.clone()))));
+                mids.push(seq(at(Op::Push(Box::new(Op::Skip(1))), n.clone())));
+                mids.push(seq(at(Op::PushLit(y), at(Op::PushLit("a"), n.clone()))));
+            }
+        }
+        for x in ["a", "b"] {
+            for m in &mids {
+                for z in [Op::Str("x"), Op::Eoi, Op::Soi] {
+                    for rest in [Op::Peek, Op::MatchPeek, Op::Pop, Op::PeekSlice(0, Some(1), true), Op::MatchPop] {
+                        work.push(("stack-transactions".into(), at(Op::PushLit(x), Op::OrElse(Box::new(seq(at(m.clone(), z.clone()))), Box::new(rest.clone())))));
+                        work.push(("stack-transactions".into(), at(Op::PushLit(x), at(Op::Look(false, Box::new(at(m.clone(), z.clone()))), rest.clone()))));
+                    }
+                }
+            }
+        }
+    }
     let jobs = cfg.jobs;
     let long_inputs = vcore::strings_upto(&['a', 'b', 'é'], if quick { 5 } else { 6 });
     let parts: Vec<(Stats, HashSet<u128>, u64)> = std::thread::scope(|sc| {
@@ -732,7 +766,7 @@ fn explore(cfg: &Cfg) -> (Stats, u64, u64) {
                     let known = vcore::verdict::Known::load();
                     let mut cx = Ctx { known: &known, inputs, stats: Stats::new(), states: HashSet::new(), transitions: 0 };
                     for (label, p) in work.iter().skip(j).step_by(jobs) {
-                        cx.inputs = long_inputs;
+                        cx.inputs = if label == "stack-transactions" { short_inputs } else { long_inputs };
                         check_program(p, label, &mut cx);
                         cx.stats.inc("programs");
                     }
